@@ -1,6 +1,6 @@
 """Budgets: (number of runs, wall-clock cap in seconds) per property and tier."""
-QUICK = {'default': (320, 240)}
-THOROUGH = {'default': (12000, 3000)}
+QUICK = {'default': (640, 300)}
+THOROUGH = {'default': (24000, 2700)}
 
 
 def budget(prop, tier):
